@@ -11,6 +11,7 @@ and is outside the hypothesis `= .ok …`; absence of panics on the real code is
 functional model's `no_panic` theorems are about).
 -/
 import Ekit.Lemmas.RBPtrTop
+import Ekit.Lemmas.RBPtrRBTop
 
 namespace Ekit.MiniGo.RBHeap
 open Ekit.MiniGo Ekit.Gen.RBTreeGo
@@ -315,6 +316,49 @@ theorem c02_ptr_history_size (cmpF : Int → Int → Int) (fuel : Nat) (ops : Li
 
 theorem c02_ptr_new_size : SizeWF newTree :=
   ⟨.leaf, ⟨by simp [Repr, newTree], by simp [PT.addrs], by simp [PT.addrs]⟩, by simp [newTree, PT.addrs]⟩
+
+/-! the red-black colouring at the pointer level -/
+
+/-- C02: every operation that returns keeps the tree red-black coloured: black root, no red node with a red child, the same
+    number of black nodes on every path from the root to a nil pointer — for EVERY comparator function -/
+theorem c02_ptr_step_rb (cmpF : Int → Int → Int) (fuel : Nat) (st : St) (op : POp)
+    (r : Val) (st' : St) (hW : RBWF st) (h : op.run cmpF fuel st = .ok (r, st')) : RBWF st' := by
+  cases op with
+  | add k v => exact rbwf_add cmpF fuel k v st r st' hW h
+  | delete k => exact rbwf_delete cmpF fuel k st r st' hW h
+  | find k => exact rbwf_find cmpF fuel k st r st' hW h
+  | set k v => exact rbwf_set cmpF fuel k v st r st' hW h
+
+theorem c02_ptr_new_rb : RBWF newTree :=
+  ⟨.leaf, ⟨by simp [Repr, newTree], by simp [PT.addrs], by simp [PT.addrs]⟩, trivial, trivial, 0, rfl⟩
+
+theorem c02_ptr_reachable_rb (cmpF : Int → Int → Int) (fuel : Nat) (ops : List POp) :
+    ∀ st st', RBWF st → runOps cmpF fuel st ops = some st' → RBWF st' := by
+  induction ops with
+  | nil => intro st st' hW h; simp [runOps] at h; subst h; exact hW
+  | cons op ops ih =>
+    intro st st' hW h
+    simp only [runOps] at h
+    cases h1 : op.run cmpF fuel st with
+    | error e => simp [h1] at h
+    | ok r1 =>
+      obtain ⟨r, st1⟩ := r1
+      rw [h1] at h
+      exact ih st1 st' (c02_ptr_step_rb cmpF fuel st op r st1 hW h1) h
+
+/-- C02: after ANY history of Add/Delete/Find/Set from `NewRBTree` the translated red-black tree IS a red-black tree -/
+theorem c02_ptr_history_rb (cmpF : Int → Int → Int) (fuel : Nat) (ops : List POp) (st : St)
+    (h : runOps cmpF fuel newTree ops = some st) : ∃ t, Holds st t ∧ RB st t :=
+  c02_ptr_reachable_rb cmpF fuel ops newTree st c02_ptr_new_rb h
+
+/-- C02, the consequence: after any history the tree read off the heap along the child pointers has height at most
+    2·log2(n+1), n the number of its nodes — so a descent (`findNode`, the loop of `addNode`) makes at most that many
+    comparator calls -/
+theorem c02_ptr_history_height (cmpF : Int → Int → Int) (fuel : Nat) (ops : List POp) (st : St)
+    (h : runOps cmpF fuel newTree ops = some st) :
+    ∃ t, Holds st t ∧ t.height ≤ 2 * Nat.log2 (t.addrs.length + 1) := by
+  obtain ⟨t, hH, hR⟩ := c02_ptr_history_rb cmpF fuel ops st h
+  exact ⟨t, hH, rb_height_le st t hR⟩
 
 /-! non-vacuity: that histories run to completion (so that `runOps … = some st` is satisfiable) is what the trace acceptor
     `Driver/Rbptr.lean` establishes on every check: it runs `call cmpF procs` on ~25 000 operations per run and every one
